@@ -244,6 +244,34 @@ func (e *Engine) Verify(ct *Contract, prop string, findings []Finding) (res *Uni
 			b := toInt(env.eval(ct.AllocBound, ct.AllocBound.Expr).(IntV))
 			u.oblige(o.st, ct.Key+"#allocates", "post", ct.AllocBound.Tags, IntLe(o.st.alloc, b), ct.AllocBound.Text)
 		}
+		for _, k := range ct.Keeps {
+			// the callee under verification must itself only re-slice the field
+			parts := strings.SplitN(k, ".", 2)
+			same := False
+			for i, pn := range ct.ParamNames {
+				if pn != parts[0] || len(parts) != 2 {
+					continue
+				}
+				pv, ok := args[i].(PtrV)
+				if !ok || pv.Obj == nil {
+					continue
+				}
+				stt, ok := fn.Params[i].Type().Underlying().(*types.Pointer).Elem().Underlying().(*types.Struct)
+				if !ok {
+					continue
+				}
+				for fi := 0; fi < stt.NumFields(); fi++ {
+					if stt.Field(fi).Name() == parts[1] {
+						o0, ok0 := getPath(entry.objs[pv.Obj], append(append([]int(nil), pv.Path...), fi)).(SliceV)
+						o1, ok1 := getPath(o.st.objs[pv.Obj], append(append([]int(nil), pv.Path...), fi)).(SliceV)
+						if ok0 && ok1 {
+							same = BoolK(o0.R == o1.R)
+						}
+					}
+				}
+			}
+			u.oblige(o.st, ct.Key+"#keeps:"+k, "frame", []string{"C18"}, same, "keeps "+k)
+		}
 		if ct.FreshRes {
 			ok := True
 			var chk func(v Value)
